@@ -383,8 +383,9 @@ func moSortedBeforeUse(c *Ctx, p *packages.Package, target string, rest []ast.St
 					acc[o.Key] = true
 				}
 			}
-			e := &lxEnv{info: p.TypesInfo, fset: c.L.Fset, pair: map[string]string{ps[0]: ps[1], ps[1]: ps[0]}, acc: acc, l: ps[0], r: ps[1], leftLocals: map[string]bool{}}
-			res := e.analyse(lit.Body)
+			cbody, cl, cr := lxDelegate(p.Syntax, p.TypesInfo, c.L.Fset, lit.Body, ps[0], ps[1])
+			e := &lxEnv{info: p.TypesInfo, fset: c.L.Fset, pair: map[string]string{cl: cr, cr: cl}, acc: acc, l: cl, r: cr, leftLocals: map[string]bool{}}
+			res := e.analyse(cbody)
 			if !res.ok {
 				return "is sorted with a comparator that is not a recognised strict order: " + res.why, false
 			}
